@@ -69,6 +69,16 @@ func scenarios(c *vlib.Ctx) []*slib.Scn {
 			}
 		}
 	}
+	// one after the other: task 2 runs for two virtual minutes; task 1, which may have run before, is submitted again meanwhile
+	for _, first := range []string{"q1", "p1", "a1", "s51", ""} {
+		for _, again := range []string{"s51", "q1", "p1", "a1"} {
+			sq := []string{"q2", "w", again}
+			if first != "" {
+				sq = []string{first, "w", "q2", "w", again}
+			}
+			add("serial", modules.C07Params{Scripts: [][]string{sq}, Tasks: 2, Body: "long2", Serial: true}, vlib.Pick(c, 1, 2))
+		}
+	}
 	// other task bodies
 	for _, body := range []string{"requeue", "requeue-wait", "long"} {
 		for _, sq := range seqs(t1, 2) {
@@ -106,7 +116,7 @@ func scenarios(c *vlib.Ctx) []*slib.Scn {
 func main() {
 	vlib.Main("C07", "model_checking", func(c *vlib.Ctx) {
 		c.Rule("stateless exploration of all interleavings within a deviation bound of the real modules package (source-instrumented, queue handler, schedule handler and microtask scheduler run as threads, virtual clock): " +
-			"every sequence of <= 2 task API calls (Queue, QueuePrioritized, StartASAP, Schedule +5s/+100s/zero, MaxDelay(0), Cancel) on two tasks and <= 3 on one task by one submitter, two submitters colliding on one task, self-requeueing and long-running bodies, and every sequence of 2-3 queueing calls over three tasks behind a blocker task (order clause); horizon 10 virtual minutes; " +
+			"every sequence of <= 2 task API calls (Queue, QueuePrioritized, StartASAP, Schedule +5s/+100s/zero, MaxDelay(0), Cancel) on two tasks and <= 3 on one task by one submitter, two submitters colliding on one task, self-requeueing and long-running bodies, a task submitted again while another one runs (one after the other), and every sequence of 2-3 queueing calls over three tasks behind a blocker task (order clause); horizon 10 virtual minutes; " +
 			"distinct_nontrivial = distinct observation traces (task begin/end order and virtual times) per scenario")
 		c.Assume("sequential consistency; the unlocked accesses flagged by the authors in executeWithLocking are not separate scheduling points; a submission call concurrent with Cancel or Schedule(zero) may or may not take effect")
 		slib.Run(c, scenarios(c), slib.Opts{})
